@@ -130,7 +130,7 @@ func c01Stream(c *Ctx) {
 		r.Undecided(rule, name+": input parameter", pos, "no []byte parameter")
 		return
 	}
-	w := prove.NewWorld(p)
+	w := sharedWorld(p)
 	fi := w.Info(fn)
 
 	// ---- idiom recognition: every use of p is len(p), a slice p[lo:hi] handed
